@@ -46,6 +46,10 @@ func aliasTargets(r *rng) []int {
 func growCases(r *rng, thorough bool) {
 	mixed := func(n, from int) []modbus.Field {
 		sc := fieldScenario{servers: []string{"a", "b_1"}, units: []uint8{1, 2}}
+		if r.intn(3) == 0 {
+			fam := serverFamilies[r.intn(len(serverFamilies))]
+			sc = fieldScenario{servers: []string{fam[0], fam[1], fam[2%len(fam)]}, units: []uint8{1}}
+		}
 		fs := genFields(r, sc, n, 50, false)
 		for i := range fs {
 			fs[i].Name = strconv.Itoa(from + i)
